@@ -18,7 +18,9 @@ Inductive builtin :=
 | BPiecewiseMult (* ... with rates_multiplier *)
 | BNpArray       (* numpy.array(list): identity on nested lists *)
 | BRepeat        (* [v] * n *)
-| BAbs.
+| BAbs
+(* array-form primitives produced by vectorization.Transformer (strict: all arguments are evaluated) *)
+| BWhere | BLogAnd | BLogOr | BLogNot.
 
 Inductive expr :=
 | EInt (z : Z)
